@@ -258,7 +258,10 @@ func (c14) Run(ctx *RunCtx) {
 					break
 				}
 			}
-			if failed || ctx.Race || !c.Pct("compare", 45) {
+			// the choice is drawn in both builds so that one seed is one schedule in
+			// the plain and in the -race binary
+			doCompare := c.Pct("compare", 45)
+			if failed || ctx.Race || !doCompare {
 				break
 			}
 			// ---- differential oracle
